@@ -67,8 +67,10 @@ RULE["C11"] += "; in half of the direct batches the same objects are sorted agai
 RULE["C12"] += "; in 35 % of the standalone updates the network itself changes between two updates (new FS link, new task before/behind an existing one, work amount set) and every 4th simulated model is edited (work amounts, new FS links) and simulated again"
 RULE["C17"] += "; every second case takes the forward reference from ANOTHER fresh model, so that backward_simulate() is the very first run of the objects; 20 % of the conveyor links are given to the BaseWorkplace constructor (one-sided)"
 RULE["C19"] += "; after each encoder check the same object is asked again 0-3 times after its log changed IN PLACE (entries overwritten, appended, inserted, deleted, reversed, cleared) or with another margin; the state queries are asked again 0-2 times after in-place log changes, a new member and other times"
+RULE["C11"] += "; every 8th case is a partial-operators model (facility tasks whose workplace has several skilled facilities of which each worker can operate only some, next to plain tasks); the inversion clause also covers higher-priority facility tasks"
+RULE["C19"] += "; 15 % of the encoder logs hold equal-but-not-identical members (plain ints, sibling enum)"
 for _p in RULE:
-    RULE[_p] += " [generator-wide: individual and project absence lists unsorted in 25 % and with a repeated entry in 5 % of the draws; 6 % of the random models repeat a task name]"
+    RULE[_p] += " [generator-wide: 4 % of the random models with workplaces share an ID string across classes (team/workplace, worker/facility); individual and project absence lists unsorted in 25 % and with a repeated entry in 5 % of the draws; 6 % of the random models repeat a task name]"
 # minimal number of non-trivial cases / monitor evaluations for a conclusive run: (counter, quick, thorough)
 FLOORS = {
     "C01": [("C01.transitions", 2000, 50000), ("C01.nonFS_active", 100, 3000)],
